@@ -11,7 +11,7 @@ Cases
   (asset name)                     the files of /repo/assets load
   (loadz BYTES (ids) <expected>)   files written HERE the way present-day producers write them: object streams of 3..200 near-identical
                                    objects and the cross-reference stream compressed by a real deflate encoder (Python zlib, level 1/6/9,
-                                   fixed / dynamic Huffman codes, several blocks; 5:1 .. 100:1), Predictor 12 on the cross-reference
+                                   fixed / dynamic Huffman codes, several blocks; 5:1 .. 65:1), Predictor 12 on the cross-reference
                                    stream; expected content computed here; model side: LoaderExt.load_ext on the Gallina inflate
   (objstmz dict BYTES n)           such an object stream alone: ObjectStream::new must answer its n members
 """
@@ -800,7 +800,7 @@ def gen_ahx(rng):
 # stored blocks (its output is never shorter than its input); here the structural streams -- object streams of 3..200
 # near-identical objects (annotations, font descriptors, pages, structure elements, widths arrays, strings, numbers) and the
 # cross-reference stream, with and without the PNG Up predictor every producer applies to it -- are compressed by zlib at level
-# 1 / 6 / 9 with fixed or dynamic Huffman codes, one or several deflate blocks: 5:1 .. 100:1.  The expected content is computed
+# 1 / 6 / 9 with fixed or dynamic Huffman codes, one or several deflate blocks: 5:1 .. 65:1.  The expected content is computed
 # here from the same values; the model side reads the file with LoaderExt.load_ext on the Gallina inflate (Spec/Inflate.v).
 # ------------------------------------------------------------------------------------------------
 import zlib
@@ -1210,7 +1210,7 @@ SPEC = {
             'bytes come from the extracted reference writer and go to Document::load_mem; plus files in the layout of present-day '
             'producers whose object streams (3-200 near-identical dictionaries / arrays / strings) and cross-reference stream (with and '
             'without Predictor 12) are compressed by a real deflate encoder (zlib level 1/6/9, fixed and dynamic Huffman codes, several '
-            'blocks, 5:1 to 100:1), read by the implementation and by the loader model on the Gallina inflate; plus the asset '
+            'blocks, 5:1 to 65:1), read by the implementation and by the loader model on the Gallina inflate; plus the asset '
             'files; plus valid and malformed inputs for decode_xref_stream, the xref table parser and ObjectStream::new against their models; '
             'non-trivial = the reference writer produced a file / every direct case; distinct = distinct case text',
     'extra_trusted': ['C02: the reference writer coq/Spec/RefWriter.v is the specification of "a syntactically valid PDF file" (written from '
